@@ -293,3 +293,297 @@ theorem deadlocked_iff (s : State) :
     exact ⟨t, ht, by simpa using hne⟩
 
 end Sst.Sched
+
+/-! ## threads with a shared counter (`Sst.SchedS`) -/
+
+namespace Sst.SchedS
+
+/-! ### erasure: the lock behaves as in `Sst.Sched` -/
+
+theorem erase_getElem? (s : State) (i : Nat) :
+    (erase s).threads[i]? = (s.threads[i]?).map eraseThread := by
+  simp [erase]
+
+theorem enabled_erase (s : State) (i : Nat) : Sched.enabled (erase s) i = enabled s i := by
+  unfold Sched.enabled enabled
+  rw [erase_getElem?]
+  cases s.threads[i]? with
+  | none => rfl
+  | some t =>
+    obtain ⟨prog, reg⟩ := t
+    cases prog with
+    | nil => rfl
+    | cons x p => cases x <;> rfl
+
+theorem stepThread_erase (s : State) (i : Nat) :
+    erase (stepThread s i) = Sched.stepThread (erase s) i := by
+  unfold Sched.stepThread stepThread
+  rw [erase_getElem?]
+  cases s.threads[i]? with
+  | none => rfl
+  | some t =>
+    obtain ⟨prog, reg⟩ := t
+    cases prog with
+    | nil => rfl
+    | cons x p => cases x <;> simp [erase, eraseThread, eraseInstr, List.map_set]
+
+theorem run_erase : ∀ (sched : List Nat) (s : State), erase (run s sched) = Sched.run (erase s) sched
+  | [], _ => rfl
+  | i :: is, s => by
+    show erase (run (stepThread s i) is) = Sched.run (Sched.stepThread (erase s) i) is
+    rw [run_erase is, stepThread_erase]
+
+theorem validSched_erase : ∀ (sched : List Nat) (s : State),
+    ValidSched s sched ↔ Sched.ValidSched (erase s) sched
+  | [], _ => Iff.rfl
+  | i :: is, s => by
+    show (enabled s i = true ∧ ValidSched (stepThread s i) is) ↔
+      (Sched.enabled (erase s) i = true ∧ Sched.ValidSched (Sched.stepThread (erase s) i) is)
+    rw [enabled_erase, validSched_erase is, stepThread_erase]
+
+theorem validSched_append (sched : List Nat) (s : State) (i : Nat) (hv : ValidSched s sched)
+    (he : enabled (run s sched) i = true) : ValidSched s (sched ++ [i]) := by
+  rw [validSched_erase] at hv ⊢
+  apply Sched.validSched_append sched (erase s) i hv
+  rw [← run_erase, enabled_erase]; exact he
+
+theorem exists_unfinished_erase (s : State) (h : ∃ t ∈ s.threads, t.prog ≠ []) :
+    ∃ t ∈ (erase s).threads, t.prog ≠ [] := by
+  obtain ⟨t, ht, hne⟩ := h
+  refine ⟨eraseThread t, List.mem_map_of_mem ht, ?_⟩
+  intro h0
+  apply hne
+  simpa [eraseThread] using h0
+
+theorem finished_iff (s : State) : finished s = true ↔ ∀ t ∈ s.threads, t.prog = [] := by
+  unfold finished
+  rw [Sched.finished_iff]
+  simp [erase, eraseThread]
+
+/-- no deadlock, carried over from `Sched.progress` -/
+theorem progress (s : State) (hinv : Sched.Inv (erase s)) (hnot : ∃ t ∈ s.threads, t.prog ≠ []) :
+    ∃ i, enabled s i = true := by
+  obtain ⟨i, hi⟩ := Sched.progress (erase s) hinv (exists_unfinished_erase s hnot)
+  exact ⟨i, by rw [← enabled_erase]; exact hi⟩
+
+/-! ### the allocator invariant -/
+
+theorem ainside_loaded {h : Bool} {p : List Instr} (hp : ainside h true p = true) :
+    h = true ∧ ∃ q, p = .store :: q := by
+  cases p with
+  | nil => simp [ainside] at hp
+  | cons x q =>
+    cases x <;> simp [ainside] at hp
+    exact ⟨hp.1, _, rfl⟩
+
+theorem storesLeft_set : ∀ (ts : List Thread) (i : Nat) (x : Instr) (p : List Instr) (r r' : Nat),
+    ts[i]? = some ⟨x :: p, r⟩ →
+    storesLeft (ts.set i ⟨p, r'⟩) + (if x = .store then 1 else 0) = storesLeft ts
+  | [], _, _, _, _, _, h => by simp at h
+  | t :: ts, 0, x, p, r, r', h => by
+    simp only [List.getElem?_cons_zero, Option.some.injEq] at h
+    subst h
+    simp only [List.set_cons_zero, storesLeft, List.count_cons, beq_iff_eq]
+    omega
+  | t :: ts, i + 1, x, p, r, r', h => by
+    simp only [List.getElem?_cons_succ] at h
+    have := storesLeft_set ts i x p r r' h
+    simp only [List.set_cons_succ, storesLeft]
+    omega
+
+/-- each `store` executed hands out one id -/
+theorem step_stores (s : State) (i : Nat) :
+    (stepThread s i).log.length + storesLeft (stepThread s i).threads
+      = s.log.length + storesLeft s.threads := by
+  unfold stepThread
+  cases hi : s.threads[i]? with
+  | none => rfl
+  | some t =>
+    obtain ⟨prog, reg⟩ := t
+    cases prog with
+    | nil => rfl
+    | cons x p =>
+      cases x with
+      | store =>
+        have := storesLeft_set s.threads i .store p reg reg hi
+        simp only [if_true] at this
+        simp only [List.length_append, List.length_singleton]
+        omega
+      | load =>
+        have := storesLeft_set s.threads i .load p reg s.counter hi
+        simp only [reduceCtorEq, if_false] at this
+        simp only; omega
+      | acquire =>
+        have := storesLeft_set s.threads i .acquire p reg reg hi
+        simp only [reduceCtorEq, if_false] at this
+        simp only; omega
+      | release =>
+        have := storesLeft_set s.threads i .release p reg reg hi
+        simp only [reduceCtorEq, if_false] at this
+        simp only; omega
+      | step =>
+        have := storesLeft_set s.threads i .step p reg reg hi
+        simp only [reduceCtorEq, if_false] at this
+        simp only; omega
+
+theorem enabled_cases {s : State} {i : Nat} (he : enabled s i = true) :
+    ∃ x p reg, s.threads[i]? = some ⟨x :: p, reg⟩ ∧ (x = .acquire → s.holder = none)
+      ∧ (x = .release → s.holder = some i) := by
+  unfold enabled at he
+  cases hi : s.threads[i]? with
+  | none => rw [hi] at he; cases he
+  | some t =>
+    obtain ⟨prog, reg⟩ := t
+    rw [hi] at he
+    cases prog with
+    | nil => cases he
+    | cons x p =>
+      refine ⟨x, p, reg, rfl, ?_, ?_⟩
+      · intro hx; subst hx; simpa using he
+      · intro hx; subst hx; simpa using he
+
+theorem getElem?_set_cases {ts : List Thread} {i : Nat} (hlt : i < ts.length) (a : Thread) (j : Nat)
+    (t' : Thread) (h : (ts.set i a)[j]? = some t') :
+    (j = i ∧ t' = a) ∨ (j ≠ i ∧ ts[j]? = some t') := by
+  rw [List.getElem?_set] at h
+  by_cases hji : i = j
+  · subst hji
+    simp only [if_true, hlt] at h
+    injection h with h
+    exact .inl ⟨rfl, h.symm⟩
+  · simp only [hji, if_false] at h
+    exact .inr ⟨fun e => hji e.symm, h⟩
+
+/-- the allocator invariant is inductive -/
+theorem step_ainv (c0 : Nat) (s : State) (hinv : AInv c0 s) (i : Nat) (he : enabled s i = true) :
+    AInv c0 (stepThread s i) := by
+  have hlock : Sched.Inv (erase (stepThread s i)) := by
+    rw [stepThread_erase]
+    exact Sched.step_inv _ hinv.lock i (by rw [enabled_erase]; exact he)
+  obtain ⟨x, p, reg, hi, hacq, hrel⟩ := enabled_cases he
+  have hlt := Sched.lt_of_getElem? hi
+  obtain ⟨l, hal, hreg⟩ := hinv.alloc i _ hi
+  have hne : ∀ j, j ≠ i → (some i = some j) = False := by
+    intro j hj; simp only [Option.some.injEq, eq_iff_iff, iff_false]; exact fun e => hj e.symm
+  cases x with
+  | acquire =>
+    have hst : stepThread s i = { s with threads := s.threads.set i ⟨p, reg⟩, holder := some i } := by
+      unfold stepThread; rw [hi]
+    have hh := hacq rfl
+    simp only [ainside, Bool.and_eq_true] at hal
+    refine ⟨hlock, ?_, ?_, ?_⟩ <;> rw [hst]
+    · exact hinv.counter
+    · exact hinv.ids
+    · intro j t' hj
+      rcases getElem?_set_cases hlt _ j t' hj with ⟨rfl, rfl⟩ | ⟨hji, hj'⟩
+      · exact ⟨false, by simpa using hal.2, fun h => by cases h⟩
+      · obtain ⟨l', h1, h2⟩ := hinv.alloc j t' hj'
+        refine ⟨l', ?_, h2⟩
+        simp only [hh, hne j hji, decide_false] at h1 ⊢
+        exact h1
+  | release =>
+    have hst : stepThread s i = { s with threads := s.threads.set i ⟨p, reg⟩, holder := none } := by
+      unfold stepThread; rw [hi]
+    have hh := hrel rfl
+    simp only [ainside, Bool.and_eq_true] at hal
+    refine ⟨hlock, ?_, ?_, ?_⟩ <;> rw [hst]
+    · exact hinv.counter
+    · exact hinv.ids
+    · intro j t' hj
+      rcases getElem?_set_cases hlt _ j t' hj with ⟨rfl, rfl⟩ | ⟨hji, hj'⟩
+      · exact ⟨false, by simpa using hal.2, fun h => by cases h⟩
+      · obtain ⟨l', h1, h2⟩ := hinv.alloc j t' hj'
+        refine ⟨l', ?_, h2⟩
+        simp only [hh, hne j hji, decide_false] at h1 ⊢
+        exact h1
+  | step =>
+    have hst : stepThread s i = { s with threads := s.threads.set i ⟨p, reg⟩ } := by
+      unfold stepThread; rw [hi]
+    simp only [ainside, Bool.and_eq_true] at hal
+    refine ⟨hlock, ?_, ?_, ?_⟩ <;> rw [hst]
+    · exact hinv.counter
+    · exact hinv.ids
+    · intro j t' hj
+      rcases getElem?_set_cases hlt _ j t' hj with ⟨rfl, rfl⟩ | ⟨_, hj'⟩
+      · exact ⟨false, hal.2, fun h => by cases h⟩
+      · exact hinv.alloc j t' hj'
+  | load =>
+    have hst : stepThread s i = { s with threads := s.threads.set i ⟨p, s.counter⟩ } := by
+      unfold stepThread; rw [hi]
+    simp only [ainside, Bool.and_eq_true] at hal
+    refine ⟨hlock, ?_, ?_, ?_⟩ <;> rw [hst]
+    · exact hinv.counter
+    · exact hinv.ids
+    · intro j t' hj
+      rcases getElem?_set_cases hlt _ j t' hj with ⟨rfl, rfl⟩ | ⟨_, hj'⟩
+      · exact ⟨true, hal.2, fun _ => rfl⟩
+      · exact hinv.alloc j t' hj'
+  | store =>
+    have hst : stepThread s i =
+        { s with threads := s.threads.set i ⟨p, reg⟩, counter := reg + 1,
+                 log := s.log ++ [(i, reg + 1)] } := by
+      unfold stepThread; rw [hi]
+    simp only [ainside, Bool.and_eq_true, decide_eq_true_eq] at hal
+    have hr : reg = s.counter := hreg hal.1.2
+    refine ⟨hlock, ?_, ?_, ?_⟩ <;> rw [hst]
+    · show reg + 1 = c0 + (s.log ++ [(i, reg + 1)]).length
+      rw [List.length_append, List.length_singleton, hr, hinv.counter]; omega
+    · show (s.log ++ [(i, reg + 1)]).map Prod.snd
+        = (List.range (s.log ++ [(i, reg + 1)]).length).map (fun n => c0 + 1 + n)
+      rw [List.map_append, List.length_append, List.length_singleton, List.range_succ, List.map_append,
+        hinv.ids, hr, hinv.counter]
+      simp only [List.map_cons, List.map_nil]
+      congr 2; omega
+    · intro j t' hj
+      rcases getElem?_set_cases hlt _ j t' hj with ⟨rfl, rfl⟩ | ⟨hji, hj'⟩
+      · exact ⟨false, hal.2, fun h => by cases h⟩
+      · obtain ⟨l', h1, h2⟩ := hinv.alloc j t' hj'
+        refine ⟨l', h1, ?_⟩
+        intro hl'
+        subst hl'
+        -- thread `j` would hold the lock, but `i` does
+        have := (ainside_loaded h1).1
+        simp only [hal.1.1, decide_eq_true_eq] at this
+        exact absurd (Option.some.inj this) (fun e => hji e.symm)
+
+theorem run_ainv (c0 : Nat) : ∀ (sched : List Nat) (s : State), AInv c0 s → ValidSched s sched →
+    AInv c0 (run s sched)
+  | [], _, hinv, _ => hinv
+  | i :: is, s, hinv, hv => run_ainv c0 is _ (step_ainv c0 s hinv i hv.1) hv.2
+
+theorem run_stores : ∀ (sched : List Nat) (s : State),
+    (run s sched).log.length + storesLeft (run s sched).threads = s.log.length + storesLeft s.threads
+  | [], _ => rfl
+  | i :: is, s => by
+    show (run (stepThread s i) is).log.length + storesLeft (run (stepThread s i) is).threads = _
+    rw [run_stores is, step_stores]
+
+theorem init_ainv (c0 : Nat) (progs : List (List Instr)) (hd : ∀ p ∈ progs, Disciplined p = true)
+    (ha : ∀ p ∈ progs, AllocInside p = true) : AInv c0 (init c0 progs) := by
+  refine ⟨?_, rfl, rfl, ?_⟩
+  · have e : erase (init c0 progs)
+        = { threads := (progs.map (List.map eraseInstr)).map Sched.Thread.mk, holder := none } := by
+      simp [erase, init, eraseThread, Function.comp_def]
+    rw [e]
+    apply Sched.init_inv
+    intro p hp
+    obtain ⟨p', hp', rfl⟩ := List.mem_map.mp hp
+    exact hd p' hp'
+  · intro i t hi
+    simp only [init, List.getElem?_map, Option.map_eq_some_iff] at hi
+    obtain ⟨p, hp, rfl⟩ := hi
+    exact ⟨false, by simpa [init, AllocInside] using ha p (List.mem_of_getElem? hp), fun h => by cases h⟩
+
+theorem nodup_ids (c0 n : Nat) : ((List.range n).map (fun k => c0 + 1 + k)).Nodup := by
+  induction n with
+  | zero => simp
+  | succ n ih =>
+    rw [List.range_succ, List.map_append, List.nodup_append]
+    refine ⟨ih, by simp, ?_⟩
+    intro a ha b hb
+    simp only [List.mem_map, List.mem_range] at ha
+    simp only [List.map_cons, List.map_nil, List.mem_singleton] at hb
+    obtain ⟨k, hk, rfl⟩ := ha
+    omega
+
+end Sst.SchedS
